@@ -76,10 +76,7 @@ fn check_break_assignment(context: &CheckerContext) -> GenericResult<()> {
             .into());
         }
 
-        let departure = tour
-            .stops
-            .first()
-            .map(|stop| parse_time(&stop.schedule().departure))
+        let departure = get_departure_time(tour)
             .ok_or_else(|| GenericError::from(format!("cannot get departure for tour '{}'", tour.vehicle_id)))?;
 
         let arrival = tour
@@ -165,13 +162,19 @@ fn as_leg_info_with_break<'a>(
     None
 }
 
+/// Gets departure time of the tour.
+fn get_departure_time(tour: &Tour) -> Option<Float> {
+    // NOTE departure activity has its own time when other activities are performed at the departure stop
+    tour.stops.first().map(|stop| {
+        let departure = stop.activities().first().and_then(|activity| activity.time.as_ref());
+        parse_time(departure.map_or(&stop.schedule().departure, |time| &time.end))
+    })
+}
+
 /// Gets break time window.
 pub(crate) fn get_break_time_window(tour: &Tour, vehicle_break: &VehicleBreak) -> GenericResult<TimeWindow> {
-    let departure = tour
-        .stops
-        .first()
-        .map(|stop| parse_time(&stop.schedule().departure))
-        .ok_or_else(|| format!("cannot get departure time for tour: '{}'", tour.vehicle_id))?;
+    let departure =
+        get_departure_time(tour).ok_or_else(|| format!("cannot get departure time for tour: '{}'", tour.vehicle_id))?;
 
     match vehicle_break {
         VehicleBreak::Optional { time: VehicleOptionalBreakTime::TimeWindow(tw), .. } => Ok(parse_time_window(tw)),
